@@ -583,3 +583,392 @@ def nontrivial_loop(line, ans):
         if pre != "bot" and any(i not in ((None, None), None) for i in pre):
             return True
     return False
+
+
+# ------------------------------------------------------------------ additions for the thresholds / liveness stream of C01
+# (mirror: coq/Fix/WtoThresholds.v, coq/Ana/FwdItvLive.v)
+
+THR_VALUES = [0, 1, 3, 4, 5, 6, 10, 50]
+
+
+def gen_thr_program(rng):
+    """loops whose invariants depend on the widening thresholds: `while (nondet) { if (guards) updates ... }` with
+    several guarded branches per loop (assumes with one variable, coefficients 1 -1 2 -2 3 -3, <= and <, bounds taken
+    from a small pool so that consecutive values k, k+1 meet; also two-variable and eq / ne guards that give no
+    threshold), guards in the head block and in its predecessors, nested loops, temporaries that are dead at the end of
+    their block."""
+    nv = rng.randint(2, 4)
+    blocks = [[]]
+    edges = []
+    base = rng.choice([0, 3, 9, 10, 20, 99, -4, -10])
+    pool = [base, base + 1, base - 1, base + 2, base + 7, -base, -base - 1, 2 * base + 1, 0, 1, -1]
+
+    def new_block():
+        blocks.append([])
+        return len(blocks) - 1
+
+    def guard():
+        r = rng.random()
+        if r < 0.75:
+            c = rng.choice([1, 1, 1, -1, -1, 2, -2, 3, -3])
+            return (rng.choice(["le", "le", "lt"]), ([(c, rng.randrange(nv))], -rng.choice(pool) * rng.choice([1, 1, abs(c)]) + rng.choice([0, 0, 1])))
+        if r < 0.9 and nv >= 2:
+            a, b = sorted(rng.sample(range(nv), 2))
+            return (rng.choice(["le", "lt"]), ([(1, a), (-1, b)], rng.choice([0, 1, -1, 5])))
+        return (rng.choice(["eq", "ne"]), ([(1, rng.randrange(nv))], -rng.choice(pool)))
+
+    def update(b):
+        x = rng.randrange(nv)
+        r = rng.random()
+        if r < 0.6:
+            blocks[b].append("arith add %d %d k %d" % (x, x, rng.choice([1, 1, 2, 3, -1, -1, -2, 5])))
+        elif r < 0.75 and nv >= 2:
+            y = rng.randrange(nv)
+            blocks[b].append("arith add %d %d v %d" % (x, x, y))
+        elif r < 0.9:
+            # a temporary: defined and used in the block, typically dead at its end
+            t = rng.randrange(nv)
+            blocks[b].append("arith %s %d %d k %d" % (rng.choice(["add", "mul", "sub"]), t, x, rng.choice([1, 2, 3])))
+            blocks[b].append("arith add %d %d v %d" % (x, x, t))
+        else:
+            blocks[b].append(rand_stmt(rng, nv))
+
+    def loop(cur, depth):
+        for v in rng.sample(range(nv), rng.randint(1, nv)):
+            if rng.random() < 0.7:
+                blocks[cur].append("assign %d E 0 %d" % (v, rng.choice([0, 0, 0, 1, -1, 2, rng.choice(pool)])))
+        if rng.random() < 0.3:
+            blocks[cur].append("assume %s" % fmt_cst(guard()))      # a guard in a predecessor of the head
+        h = new_block()
+        edges.append((cur, h))
+        if rng.random() < 0.25:
+            blocks[h].append("assume %s" % fmt_cst(guard()))        # a guard in the head itself
+        for _ in range(rng.choice([1, 2, 2, 3])):
+            b = new_block()
+            edges.append((h, b))
+            shape = rng.choices(["count", "skip", "random"], [6, 1, 3])[0]
+            if shape == "count":
+                # a guarded counter: the guard's constant (+-1) is the threshold that stops the widening
+                v = rng.randrange(nv); up = rng.random() < 0.7
+                c = rng.choice([1, 1, 1, 2, 3]) * (1 if up else -1)
+                kind = rng.choice(["le", "le", "lt"])
+                K = abs(rng.choice(pool)) + rng.choice([0, 0, 1, 5]) if up else -abs(rng.choice(pool))
+                blocks[b].append("assume %s" % fmt_cst((kind, ([(c, v)], -K * c))))      # v <= K  /  v >= K
+                if rng.random() < 0.3:
+                    blocks[b].append("assume %s" % fmt_cst(guard()))
+                blocks[b].append("arith add %d %d k %d" % (v, v, rng.choice([1, 1, 2, 3]) * (1 if up else -1)))
+                if rng.random() < 0.3:
+                    update(b)
+            elif shape == "random":
+                for _ in range(rng.choice([0, 1, 1, 1, 2])):
+                    blocks[b].append("assume %s" % fmt_cst(guard()))
+                for _ in range(rng.choice([0, 1, 1, 2])):
+                    update(b)
+            last = b
+            if depth < 2 and len(blocks) < 11 and rng.random() < 0.3:
+                last = loop(b, depth + 1)
+                for _ in range(rng.choice([0, 1])):
+                    update(last)
+                if rng.random() < 0.5:
+                    blocks[last].append("assume %s" % fmt_cst(guard()))
+            elif rng.random() < 0.25:
+                n = new_block(); edges.append((b, n)); update(n); last = n
+            edges.append((last, h))
+        ex = new_block()
+        edges.append((h, ex))
+        if rng.random() < 0.5:
+            blocks[ex].append("assume %s" % fmt_cst(guard()))
+        return ex
+
+    cur = 0
+    for _ in range(rng.choice([1, 1, 2])):
+        if len(blocks) > 10:
+            break
+        cur = loop(cur, 0)
+        for _ in range(rng.choice([0, 1, 2])):
+            blocks[cur].append(rand_stmt(rng, nv))
+    nb = len(blocks)
+    if rng.random() < 0.2:
+        a, b = rng.randrange(nb), rng.randrange(nb)
+        if (a, b) not in edges:
+            edges.append((a, b))
+    return "cfg %d %d %d" % (nb, nv, cur), blocks, edges
+
+
+def gen_thrlive(seed, tier, n=None):
+    """C01, configurations thr=<max_thresholds> and live=0|1 of intra_fwd_analyzer, varied independently:
+    half of the programs come from gen_program (the generator of the plain stream), half from gen_thr_program;
+    widening delay 0-3 (mostly small: thresholds act after the delay), descending iterations 0-2, optional
+    alternative entry block and initial constraints.  selfcheck=0: the model driver does not run the table checker on
+    the model's own tables (they are sound by theorem; after a descending phase over nested loops they need not be
+    inductive, neither the model's nor the implementation's)."""
+    rng = random.Random(seed)
+    n = n or (300 if tier == "quick" else 8000)
+    lines = [
+        # thresholds make the head invariant [0,10] instead of [0,+oo] (coq: C01_thresholds_example)
+        "cfg 5 1 4 delay=1 desc=1 thr=10 live=0 | B 0 assign 0 E 0 0 | B 1 | B 2 assume C le E 1 1 0 -9 ; arith add 0 0 k 1 | B 3 | B 4 | E 0 1 1 2 2 1 1 3 3 1 1 4",
+        "cfg 5 1 4 delay=1 desc=1 thr=3 live=0 | B 0 assign 0 E 0 0 | B 1 | B 2 assume C le E 1 1 0 -9 ; arith add 0 0 k 1 | B 3 | B 4 | E 0 1 1 2 2 1 1 3 3 1 1 4",
+        # x dead at the end of b0 (coq: C01_liveness_pruning_example)
+        "cfg 2 2 1 thr=0 live=1 | B 0 assign 0 E 0 5 ; arith add 1 0 k 1 | B 1 arith add 1 1 k 1 | E 0 1",
+        # consecutive thresholds are merged (9+1 replaces nothing, 10+1 replaces 10), negative side, strict, coefficient 2, capacity 4
+        "cfg 5 2 4 delay=0 desc=0 thr=50 live=1 | B 0 assign 0 E 0 0 ; assign 1 E 0 0 | B 1 | B 2 assume C le E 1 1 0 -9 ; assume C lt E 1 2 0 -21 ; arith add 0 0 k 1 | B 3 assume C le E 1 -1 1 -5 ; assume C lt E 1 -3 1 -20 ; arith add 1 1 k -1 | B 4 | E 0 1 1 2 2 1 1 3 3 1 1 4",
+        "cfg 5 2 4 delay=0 desc=0 thr=4 live=0 | B 0 assign 0 E 0 0 ; assign 1 E 0 0 | B 1 | B 2 assume C le E 1 1 0 -9 ; assume C lt E 1 2 0 -21 ; arith add 0 0 k 1 | B 3 assume C le E 1 -1 1 -5 ; assume C lt E 1 -3 1 -20 ; arith add 1 1 k -1 | B 4 | E 0 1 1 2 2 1 1 3 3 1 1 4",
+        # nested cycles: the constants of the inner cycle are not thresholds of the outer one
+        "cfg 7 2 6 delay=0 desc=0 thr=10 live=0 | B 0 assign 0 E 0 0 ; assign 1 E 0 0 | B 1 | B 2 assume C le E 1 1 0 -19 ; arith add 0 0 k 1 | B 3 | B 4 assume C le E 1 1 1 -6 ; arith add 1 1 k 1 ; arith add 0 0 k 1 | B 5 | B 6 | E 0 1 1 2 2 3 3 4 4 3 3 5 5 1 1 6",
+    ]
+    for i in range(n):
+        if i % 2 == 0:
+            o = {"entry_loop": rng.random() < 0.2}
+            header, blocks, edges, _na = gen_program(rng, o)
+        else:
+            header, blocks, edges = gen_thr_program(rng)
+        po = [("delay", rng.choice([0, 0, 1, 1, 2, 3])), ("desc", rng.choice([0, 0, 1, 1, 2])),
+              ("thr", rng.choice(THR_VALUES)), ("live", rng.choice([0, 1])), ("selfcheck", 0)]
+        if rng.random() < 0.2:
+            succ = {}
+            for a, b in edges:
+                succ.setdefault(a, []).append(b)
+            reach = {0}; work = [0]
+            while work:
+                v = work.pop()
+                for x in succ.get(v, []):
+                    if x not in reach:
+                        reach.add(x); work.append(x)
+            po.append(("entry", rng.choice(sorted(reach))))
+        extra = []
+        if rng.random() < 0.25:
+            nv = int(header.split()[2])
+            v = rng.randrange(nv)
+            extra.append("I C le E 1 -1 %d %d C le E 1 1 %d %d" % (v, rng.randint(-3, 3), v, -rng.randint(3, 9)))
+        lines.append(fmt_program(header, blocks, edges, po, extra))
+    return lines
+
+
+def thrlive_key(line):
+    """coverage key: which of the two options is active"""
+    o = dict(x.split("=") for x in line.split(" | ")[0].split()[4:] if "=" in x)
+    t = int(o.get("thr", "0"))
+    return "thr=%s live=%s" % ("0" if t == 0 else ("1-3" if t <= 3 else ">3"), o.get("live", "0"))
+
+
+# ---- boolean statements of harness/cfgtext.hpp (bassign, bcopy, bnot, bbin, bselect, bassume, bnassume, bassert, bhavoc,
+# bzext) for the domains that interpret them (flat_boolean_numerical_domain): generator, interpreter and the two oracles.
+# The store of an execution is the list of the nv integer variables followed by the booleans b0, b1, ... as 0 / 1.
+
+BOOL_OPS = ("bassign", "bcopy", "bnot", "bbin", "bselect", "bassume", "bnassume", "bassert", "bhavoc", "bzext")
+
+
+def rand_bstmt(rng, nv, nbool):
+    B = lambda: rng.randrange(nbool)
+    k = rng.choices(["bassign", "bcopy", "bnot", "bbin", "bselect", "bassume", "bnassume", "bhavoc", "bzext"],
+                    [9, 2, 3, 5, 2, 4, 3, 1, 2])[0]
+    if k == "bassign":
+        c = gen_cst(rng, nv, small=True, maxterms=2)
+        if rng.random() < 0.08:
+            c = (rng.choice(["eq", "le"]), ([], rng.choice([0, 0, 1, -1])))          # b := true / false
+        return "bassign %d %s" % (B(), fmt_cst(c))
+    if k in ("bcopy", "bnot"):
+        return "%s %d %d" % (k, B(), B())
+    if k == "bbin":
+        return "bbin %s %d %d %d" % (rng.choice(["and", "or", "xor"]), B(), B(), B())
+    if k == "bselect":
+        return "bselect %d %d %d %d" % (B(), B(), B(), B())
+    if k == "bzext":
+        return "bzext %d %d" % (rng.randrange(nv), B())
+    return "%s %d" % (k, B())
+
+
+def add_bool_stmts(line, rng, asserts=False):
+    """inserts boolean statements at random places of the blocks of a program of gen(); with asserts=True also
+    `bassert` statements (ids after the numerical assertions; the header option nasserts is updated)"""
+    secs = line.split(" | ")
+    head = secs[0].split()
+    nv = int(head[2])
+    nbool = rng.randint(1, 3)
+    na = 0
+    for t in head:
+        if t.startswith("nasserts="):
+            na = int(t.split("=")[1])
+    for i, s in enumerate(secs):
+        t = s.split()
+        if not t or t[0] != "B":
+            continue
+        stmts = [x.strip() for x in " ".join(t[2:]).split(" ; ") if x.strip()]
+        for _ in range(rng.choice([0, 1, 1, 2, 3])):
+            # keep the loop counter update (last statement) and the guards (first statement) where they are, mostly
+            stmts.insert(rng.randint(0, len(stmts)), rand_bstmt(rng, nv, nbool))
+        if asserts and rng.random() < 0.3:
+            na += 1
+            stmts.insert(rng.randint(0, len(stmts)), "bassert %d %d" % (rng.randrange(nbool), na))
+        secs[i] = "B %s %s" % (t[1], " ; ".join(stmts))
+    if asserts:
+        head = [t for t in head if not t.startswith("nasserts=")] + ["nasserts=%d" % na]
+    secs[0] = " ".join(head)
+    return " | ".join(secs)
+
+
+def parse_stmt_ext(t):
+    op = t[0]
+    if op not in BOOL_OPS:
+        return parse_stmt(t)
+    k = Tok(t[1:])
+    if op == "bassign":
+        b = k.nexti(); return ("bassign", b, p_cst(k))
+    if op == "bbin":
+        f = k.next(); return ("bbin", f, k.nexti(), k.nexti(), k.nexti())
+    if op == "bzext":
+        x = k.nexti(); return ("bzext", x, k.nexti())
+    return tuple([op] + [int(x) for x in t[1:]])
+
+
+def parse_ext(line):
+    """parse() + boolean statements; P['nbool'] = number of boolean variables"""
+    P = parse(line)
+    nbool = 0
+    for s in line.split(" | ")[1:]:
+        t = s.split()
+        if not t or t[0] != "B":
+            continue
+        cur = []; stmts = []
+        for x in t[2:] + [";"]:
+            if x == ";":
+                if cur: stmts.append(cur)
+                cur = []
+            else:
+                cur.append(x)
+        ps = [parse_stmt_ext(x) for x in stmts]
+        P["blocks"][int(t[1])] = ps
+        for st in ps:
+            if st[0] in BOOL_OPS:
+                bs = {"bassign": st[1:2], "bbin": st[2:5], "bzext": st[2:3], "bassert": st[1:2]}.get(st[0], st[1:])
+                nbool = max([nbool] + [b + 1 for b in bs])
+    P["nbool"] = nbool
+    return P
+
+
+def exec_stmt_ext(st, s, rng, nv):
+    k = st[0]
+    if k not in BOOL_OPS:
+        return exec_stmt(st, s, rng)
+    s = list(s)
+    B = lambda i: nv + i
+    if k == "bassign":
+        s[B(st[1])] = 1 if holds(st[2], s) else 0
+    elif k == "bcopy":
+        s[B(st[1])] = s[B(st[2])]
+    elif k == "bnot":
+        s[B(st[1])] = 1 - s[B(st[2])]
+    elif k == "bbin":
+        a, b = s[B(st[3])], s[B(st[4])]
+        s[B(st[2])] = {"and": a & b, "or": a | b, "xor": a ^ b}[st[1]]
+    elif k == "bselect":
+        s[B(st[1])] = s[B(st[3])] if s[B(st[2])] else s[B(st[4])]
+    elif k == "bassume":
+        if not s[B(st[1])]: return ("blocked",)
+    elif k == "bnassume":
+        if s[B(st[1])]: return ("blocked",)
+    elif k == "bassert":
+        if not s[B(st[1])]: return ("fail", st[2], s)
+    elif k == "bhavoc":
+        s[B(st[1])] = rng.choice([0, 1])
+    elif k == "bzext":
+        s[st[1]] = s[B(st[2])]
+    return ("ok", s)
+
+
+def run_concrete_ext(P, rng, nruns=60, maxsteps=120, on_pre=None, on_post=None, on_assert=None):
+    """run_concrete for programs with boolean statements (P from parse_ext): the booleans start with arbitrary values;
+    on_assert receives (block, statement, store, holds?) for `assert` and `bassert`"""
+    entry = int(P["opts"].get("entry", 0))
+    nv, nbool = P["nv"], P.get("nbool", 0)
+    succ = {}
+    for a, b in P["edges"]:
+        succ.setdefault(a, [])
+        if b not in succ[a]:
+            succ[a].append(b)
+    for _ in range(nruns):
+        s = [rng.choice(POOL) for _ in range(nv)]
+        for c in P["init"]:
+            if c[0] == "eq" and len(c[1][0]) == 1 and abs(c[1][0][0][0]) == 1:
+                s[c[1][0][0][1]] = -c[1][1] * c[1][0][0][0]
+        for _try in range(20):
+            if all(holds(c, s) for c in P["init"]):
+                break
+            s = [rng.randint(-10, 10) for _ in range(nv)]
+        if not all(holds(c, s) for c in P["init"]):
+            continue
+        s = s + [rng.choice([0, 1]) for _ in range(nbool)]
+        b = entry
+        for step in range(maxsteps):
+            if b in P["asm"] and not all(holds(c, s) for c in P["asm"][b]):
+                break
+            w = on_pre(b, s) if on_pre else None
+            if w: return w
+            blocked = False
+            for st in P["blocks"][b]:
+                if st[0] in ("assert", "bassert") and on_assert:
+                    w = on_assert(b, st, s, holds(st[1], s) if st[0] == "assert" else bool(s[nv + st[1]]))
+                    if w: return w
+                r = exec_stmt_ext(st, s, rng, nv)
+                if r[0] != "ok":
+                    blocked = True; break
+                s = r[1]
+            if blocked:
+                break
+            w = on_post(b, s) if on_post else None
+            if w: return w
+            nxt = succ.get(b, [])
+            if not nxt:
+                break
+            b = rng.choice(nxt)
+    return None
+
+
+def oracle_ext(line, ans, rng=None):
+    """oracle() for programs with boolean statements: the integer part of every visited store must be inside the
+    reported invariant (the tables only list the integer variables)"""
+    if ans in ("ABORT", "MISSING") or ans.startswith("HARNESS"):
+        return "%s: the analysis aborted" % line
+    P = parse_ext(line)
+    tabs = parse_tables(ans, P["nb"])
+    if tabs is None:
+        return None
+    nv = P["nv"]
+    r0 = random.Random(zlib.crc32(line.encode()))
+
+    def inside(st, s):
+        if st == "bot":
+            return False
+        return all(in_itv(st[v], s[v]) for v in range(min(len(st), nv)) if st[v] is not None)
+
+    def show(s):
+        return "%s booleans %s" % (s[:nv], s[nv:])
+
+    def on_pre(b, s):
+        if not inside(tabs[b][0], s):
+            return "%s: an execution enters b%d with store %s, outside the reported invariant %s" % (line, b, show(s), tabs[b][0])
+
+    def on_post(b, s):
+        if not inside(tabs[b][1], s):
+            return "%s: an execution leaves b%d with store %s, outside the reported invariant %s" % (line, b, show(s), tabs[b][1])
+    return run_concrete_ext(P, r0, on_pre=on_pre, on_post=on_post)
+
+
+def oracle_verdicts_ext(line, ans, rng=None):
+    """oracle_verdicts() for programs with boolean statements and `bassert`"""
+    if ans in ("ABORT", "MISSING") or ans.startswith("HARNESS"):
+        return "%s: the analysis aborted" % line
+    P = parse_ext(line)
+    V = parse_verdicts(ans)
+    if not V:
+        return None
+    nv = P["nv"]
+    r0 = random.Random(zlib.crc32(line.encode()) ^ 0x5bd1)
+
+    def on_assert(b, st, s, ok):
+        v = V.get(st[2], "")
+        if "U" in v:
+            return "%s: assertion %d (in b%d) was classified unreachable but an execution reaches it with store %s booleans %s" % (line, st[2], b, s[:nv], s[nv:])
+        if "S" in v and not ok:
+            return "%s: assertion %d (in b%d) was classified safe but an execution reaches it with store %s booleans %s, where it is false" % (line, st[2], b, s[:nv], s[nv:])
+    return run_concrete_ext(P, r0, nruns=120, on_assert=on_assert)
